@@ -58,6 +58,11 @@ Proof. exact holds_C11_sound. Qed.
 Theorem C11_corr_holds : forall c, corr_C11 c = true -> holds_C11 c = true.
 Proof. exact corr_C11_holds. Qed.
 
+(* equal strings (the class of the fixed defect D21: their cost never became definitive): the model keeps
+   every character at cost 0 *)
+Theorem C11_equal_strings : forall s, fst (str_script s s) = 0 /\ kept (snd (str_script s s)) = s.
+Proof. exact kf_class_model. Qed.
+
 Print Assumptions C11_minimal.
 Print Assumptions C11_cost.
 Print Assumptions C11_kept_lcs.
@@ -68,3 +73,4 @@ Print Assumptions C11_lcs_fast.
 Print Assumptions C11_holds.
 Print Assumptions C11_holds_sound.
 Print Assumptions C11_corr_holds.
+Print Assumptions C11_equal_strings.
